@@ -49,7 +49,7 @@ Definition draw_raw (nbits : Z) (allow_missing : bool) (g : gstate) : option N *
   else if (sel =? 2)%N then (Some (top - 2)%N, g3)
   else if (sel =? 3)%N then (if allow_missing then None else Some (top - 2)%N, g3)
   else if (sel =? 4)%N then (Some (top / 2)%N, g3)
-  else if (sel <? 8)%N then (Some (x mod N.min top 16)%N, g3)
+  else if (sel <? 8)%N then (Some (x mod N.min (top - 1) 16)%N, g3)
   else (Some ((x * 4294967296 + y) mod (top - 1))%N, g3).
 
 Definition copy_or (g : gstate) (k : gstate -> value * gstate) : value * gstate :=
@@ -76,7 +76,7 @@ Definition gen_numeric_c31 (id : N) (nbits scale refval : Z) (g : gstate) : resu
       | None =>
           let '(x, g1) := draw g in
           let top := (2 ^ Z.to_N nbits)%N in
-          let r := (x mod (N.min top (g_maxrep g + 1)))%N in
+          let r := (if (nbits <=? 1)%Z then x mod 2 else x mod (N.min (top - 1) (g_maxrep g + 1)))%N in
           (numeric_value r scale refval, g1)
       end) in
   Ok (g_push v g1).
